@@ -21,7 +21,7 @@ Record INV (cfg : config) (wf : bool) (st : state) : Prop := mkINV {
   inv_pex : parents_exist (quotas st);
   inv_used : wf = true -> forall q, In q (quotas st) -> used_ok q;
   inv_ok : wf = true -> forall q, In q (quotas st) -> quota_okb q = true;
-  inv_pods : wf = true -> forall p, In p (pods st) -> vec_nonnegb (p_req p) = true }.
+  inv_pods : wf = true -> forall p, In p (pods st) -> pod_okb (p_req p) (p_keys p) = true }.
 
 Lemma INV_init cfg wf : INV cfg wf init_state.
 Proof.
@@ -102,7 +102,7 @@ Section Preserve.
 
   (* --- refresh --- *)
   Lemma INV_refresh wf ids qs ps tot :
-    INV cfg wf (mkState qs ps tot) -> forall ps', (wf = true -> forall p, In p ps' -> vec_nonnegb (p_req p) = true) ->
+    INV cfg wf (mkState qs ps tot) -> forall ps', (wf = true -> forall p, In p ps' -> pod_okb (p_req p) (p_keys p) = true) ->
     INV cfg wf (mkState (refresh ids qs ps') ps' tot).
   Proof.
     intros I ps' Hps. destruct I as [Hnd Hcr Hpar Hpex Hus Hok Hpo]. cbn in *.
@@ -155,7 +155,7 @@ Section Preserve.
     INV cfg wf (mkState qs ps tot) ->
     (wf = true -> forall q, In q qs -> In (q_id q) ids -> q_taint q = false ->
                   used_le_max q (f (q_used q))) ->
-    (wf = true -> forall p, In p ps' -> vec_nonnegb (p_req p) = true) ->
+    (wf = true -> forall p, In p ps' -> pod_okb (p_req p) (p_keys p) = true) ->
     INV cfg wf (mkState (upd_used ids f g qs) ps' tot).
   Proof.
     intros I Hnew Hps. destruct I as [Hnd Hcr Hpar Hpex Hus Hok Hpo]. cbn in *.
@@ -177,10 +177,11 @@ Section Preserve.
 End Preserve.
 
 (* ---------- pods ---------- *)
-Lemma in_set_assigned id b ps p : In p (set_assigned id b ps) -> exists p0, In p0 ps /\ p_req p = p_req p0.
+Lemma in_set_assigned id b ps p :
+  In p (set_assigned id b ps) -> exists p0, In p0 ps /\ p_req p = p_req p0 /\ p_keys p = p_keys p0.
 Proof.
   unfold set_assigned. intro H. apply in_map_iff in H. destruct H as (x & <- & Hx).
-  exists x. split; [exact Hx|]. destruct (p_id x =? id); reflexivity.
+  exists x. split; [exact Hx|]. destruct (p_id x =? id); split; reflexivity.
 Qed.
 Lemma in_remove_pod id ps p : In p (remove_pod id ps) -> In p ps.
 Proof. unfold remove_pod. intro H. apply filter_In in H. apply H. Qed.
@@ -192,22 +193,41 @@ Proof.
   rewrite H. reflexivity.
 Qed.
 
-Lemma vmask_nonneg m v : vec_nonnegb v = true -> forall d, 0 <= vget (vmask m v) d.
+Lemma pod_okb_spec req keys :
+  pod_okb req keys = true ->
+  (forall d, 0 <= vget req d) /\ (forall d, mget keys d = false -> vget req d = 0).
 Proof.
-  intros H d. rewrite vget_vmask. rewrite vec_nonnegb_spec in H. specialize (H d).
+  unfold pod_okb. intro H. apply andb_true_iff in H. destruct H as [H1 H2].
+  rewrite vec_nonnegb_spec in H1. rewrite all_dims_spec in H2. split; [exact H1|].
+  intros d Hk. specialize (H2 d). rewrite Hk in H2. cbn in H2. lia.
+Qed.
+
+Lemma vmask_nonneg m v k : pod_okb v k = true -> forall d, 0 <= vget (vmask m v) d.
+Proof.
+  intros H d. rewrite vget_vmask. destruct (pod_okb_spec _ _ H) as [H1 _]. specialize (H1 d).
   destruct (mget m d); lia.
 Qed.
 
-Lemma pod_delta_nonneg st p : vec_nonnegb (p_req p) = true -> forall d, 0 <= vget (pod_delta st p) d.
+(* outside the keys the ancestor check looks at, the masked request is zero *)
+Lemma mreq_zero_outside q p d :
+  pod_okb (p_req p) (p_keys p) = true -> mget (req_keys q p) d = false ->
+  vget (vmask (q_decl q) (p_req p)) d = 0.
+Proof.
+  intros H Hk. unfold req_keys in Hk. rewrite mget_mmk in Hk. rewrite vget_vmask.
+  destruct (mget (q_decl q) d); [|reflexivity].
+  rewrite andb_true_r in Hk. apply (proj2 (pod_okb_spec _ _ H)). exact Hk.
+Qed.
+
+Lemma pod_delta_nonneg st p : pod_okb (p_req p) (p_keys p) = true -> forall d, 0 <= vget (pod_delta st p) d.
 Proof.
   intros H d. unfold pod_delta. destruct (find_quota (p_quota p) (quotas st)).
-  - apply vmask_nonneg. exact H.
+  - apply (vmask_nonneg _ _ (p_keys p)). exact H.
   - rewrite vget_vzero. lia.
 Qed.
 
 (* ---------- refund never raises usage ---------- *)
 Lemma refund_used_ok cfg st p :
-  INV cfg true st -> vec_nonnegb (p_req p) = true ->
+  INV cfg true st -> pod_okb (p_req p) (p_keys p) = true ->
   forall q, In q (quotas st) -> q_taint q = false ->
             used_le_max q (vsub_clamp (q_used q) (pod_delta st p)).
 Proof.
@@ -220,7 +240,7 @@ Qed.
 
 (* ---------- an admitted pod keeps every untainted quota of its path within max ---------- *)
 Lemma charge_used_ok cfg st p q anc :
-  INV cfg true st -> vec_nonnegb (p_req p) = true ->
+  INV cfg true st -> pod_okb (p_req p) (p_keys p) = true ->
   path st (p_quota p) = q :: anc ->
   admission cfg st p (q :: anc) = 0 ->
   forall x, In x (quotas st) -> In (q_id x) (map q_id (q :: anc)) -> q_taint x = false ->
@@ -239,10 +259,10 @@ Proof.
   - specialize (Hself d Hd). lia.
   - destruct (chk_parent cfg) eqn:Ec.
     + specialize (Hanc eq_refl). rewrite Forall_forall in Hanc. specialize (Hanc x Hyin d Hd).
-      pose proof (vmask_nonneg (q_decl q) _ Hp d) as Hnn.
-      destruct (Z.eq_dec (vget (vmask (q_decl q) (p_req p)) d) 0) as [E|E].
-      * rewrite E. pose proof (inv_used _ _ _ I eq_refl x Hx Ht d Hd). lia.
-      * assert (0 < vget (vmask (q_decl q) (p_req p)) d) by lia. specialize (Hanc H). lia.
+      destruct (mget (req_keys q p) d) eqn:E.
+      * specialize (Hanc eq_refl). lia.
+      * rewrite (mreq_zero_outside q p d Hp E).
+        pose proof (inv_used _ _ _ I eq_refl x Hx Ht d Hd). lia.
     + exfalso. unfold path in Hpath.
       destruct (path_from_anc _ _ _ _ _ _ Hpath Hyin) as (c & Hc & Hpc & Hnz).
       pose proof (inv_par _ _ _ I Ec c x Hc Hx Hnz (eq_sym Hpc)). congruence.
